@@ -309,7 +309,7 @@ fn states(tier: &str) -> Vec<State> {
 
 pub fn check(tier: &str) -> i32 {
     let mut rep = Report::new("C08", tier, "model_checking");
-    let (states, transitions) = dedup_states(states(tier));
+    let (states, transitions) = dedup_states(states("thorough")) /* since round 4 the quick tier explores the thorough bound */;
     let ran = run_states(&states);
     let mut agg = Agg::new();
     let mut conformant = 0u64;
@@ -339,10 +339,10 @@ pub fn check(tier: &str) -> i32 {
     rep.set("states", json!(states.len()));
     rep.set("transitions", json!(transitions));
     rep.set("traces_validated_against_impl", json!(states.len()));
-    rep.set("max_depth", json!(if tier == "quick" { 2 } else { 4 }));
+    rep.set("max_depth", json!(4));
     rep.set("states_fully_conformant", json!(conformant));
     rep.set("exhaustive", json!(true));
-    rep.set("bound", json!("extension chains of depth 1 (full product: files x declaration order x 5x5 own contents, + fan-out, + forward-lookup decoy) and depth 2 (thorough: up to 4): all file placements x declaration orders with fixed contents, all contents (3 kinds) for two file layouts; depth 3 and 4 in one file fully base-first and fully derived-first; every acyclic placement of a depth 1-2 (thorough: 3) chain over three namespaces/files whose import graph is a diamond (start -> beta -> alpha, start -> alpha), import statements in both orders"));
+    rep.set("bound", json!("extension chains of depth 1 (full product: files x declaration order x 5x5 own contents, + fan-out, + forward-lookup decoy) and depth 2 to 4 (both tiers since round 4): all file placements x declaration orders with fixed contents, all contents (3 kinds) for two file layouts; depth 3 and 4 in one file fully base-first and fully derived-first; every acyclic placement of a depth 1-3 chain over three namespaces/files whose import graph is a diamond (start -> beta -> alpha, start -> alpha), import statements in both orders"));
     rep.assume("reference model: base members (recursively, base first) then own elements in document order then own attributes (DESIGN 3.6)");
     rep.finish()
 }
